@@ -21,6 +21,20 @@ func ResetWatchCache() {
 '''},
         'trimpath': False,
     },
+    'rpc': {
+        'pkg': 'zzverif/worlds/rpc',
+        'rewrite': [('lsp/jsonrpc2', 'sync')],
+        'export_files': {'lsp/jsonrpc2/zz_verif_export.go': '''package jsonrpc2
+
+// PendingLen reports how many calls are registered as in flight.
+func PendingLen(c Conn) int {
+	cc := c.(*conn)
+	cc.pendingMu.Lock()
+	defer cc.pendingMu.Unlock()
+	return len(cc.pending)
+}
+'''},
+    },
     'sse': {
         'pkg': 'zzverif/worlds/sse',
         'rewrite': [('cmd/templ/generatecmd/sse', 'sync')],
@@ -122,6 +136,26 @@ PROPS = {
         'assumptions': ['tasks interleave only at seams (writer, flush, expression, start of render); code between two seams of one task is atomic in stage main',
                         'race detection inside a burst is by happens-before; a replay of a race report is same seed and burst structure, not a byte-identical trace',
                         'dev-mode TTL uses the real clock in this world; the text files are not edited here, so it cannot change bytes (C16 owns the TTL logic)'],
+    },
+    'C18': {
+        'world': 'rpc',
+        'level': 'exploration',
+        'builds': {'default': {}},
+        'tiers': {
+            'quick': {'runs': 4000, 'params': {'max_msgs': 12, 'all_prefixes_upto': 1500, 'max_callers': 5, 'max_calls': 4, 'max_actions': 200, 'max_steps': 3000}, 'per_run_timeout': 5.0},
+            'thorough': {'runs': 120000, 'params': {'max_msgs': 30, 'all_prefixes_upto': 8000, 'max_callers': 6, 'max_calls': 6, 'max_actions': 600, 'max_steps': 8000}, 'per_run_timeout': 20.0, 'shrink_budget_s': 300},
+        },
+        'rule': 'runs rotate over three sub-checks. F: a seeded message sequence (calls, notifications, result and error responses; numeric and string ids; multi-byte, '
+                'CRLFCRLF-bearing and up to 50 KB payloads) written by the real stream.Write, split by an independent codec, re-chunked by the tape (1 byte .. whole) and read '
+                'back by the real stream.Read. T: EOF at every prefix length of a valid stream (all prefixes up to the tier limit, else a stride) and 18 malformed-header shapes. '
+                'C (half of the runs): 1-5 caller tasks and 0-2 notifier tasks on one real conn inside a synctest bubble; transport writes park between and inside frames while '
+                'writeMu is held; a scripted peer answers out of order, late, with errors or never, sends its own requests; callers are cancelled while blocked. '
+                'distinct = sub-check + event-log hash; every run is non-trivial by construction (at least one message or call)',
+        'real': ['lsp/jsonrpc2 stream (Read/Write), conn (Call, Notify, run, write, replier), AsyncHandler, ReplyHandler, message and wire codecs'],
+        'stubbed': ['io.ReadWriteCloser transport (parks at every Read/Write, tape-chosen chunking)', 'the peer (scripted, own 40-line frame codec)', 'sync.Mutex (channel mutex)', 'caller contexts'],
+        'assumptions': ['states with a multi-ready select are not generated: a call is cancelled only while its caller is blocked in Call and no reply has been sent for it',
+                        'duplicate responses are not injected (a byte stream does not duplicate)', 'Content-Length values near 2^31 are excluded (slow allocation, not a hang)',
+                        'absent and null JSON members are the same value on the wire'],
     },
     'C19': {
         'world': 'sse',
